@@ -32,6 +32,7 @@ class D(Driver):
         ("picosvg.svg_pathops", "path_area"),
     )
     deciding_monitors = ("might_paint", "remove_empty_subpaths")
+    feature_floors = {"might_paint.truth_paints.answer_True": 1500, "might_paint.truth_nothing.answer_False": 1500, "remove_empty_subpaths.ok": 500}
     nt_floor = {"quick": 1500, "thorough": 20000}
     time_budget = {"quick": 120, "thorough": 900}
 
